@@ -333,7 +333,22 @@ fn e_hist(cx: &RunCtx) {
             seq.pop();
         }
     }
-    dfs(cx, &a, &iso, &mut seq, depth, &mut st);
+    // the sub-trees below each first call are explored by the pool's worker threads (each worker keeps
+    // its own thread-local state and runs its histories one after the other)
+    let _ = &mut seq;
+    let parts: Vec<Stats> = (0..a.len())
+        .into_par_iter()
+        .map(|i| {
+            let mut st = Stats::default();
+            let mut seq = vec![i];
+            st.transitions += 1;
+            dfs(cx, &a, &iso, &mut seq, depth, &mut st);
+            st
+        })
+        .collect();
+    for p in &parts {
+        st.merge(p);
+    }
     st.samples.push(json!({"history": [show_call(&a[0]), show_call(&a[1]), show_call(&a[2])], "isolated_results": [iso[0], iso[1], iso[2]]}));
     let distinct: std::collections::BTreeSet<&String> = iso.iter().collect();
     cx.add_run(
